@@ -259,6 +259,7 @@ CLASS_MODULE = {
     "CustomPreOCF": "inference.preocf",
     "BeliefBase": "inference.belief_base",
     "TseitinTransformation": "inference.tseitin_transformation",
+    "CRevisionModel": "inference.c_revision_model",
 }
 
 
@@ -711,6 +712,11 @@ class Executor:
                 return
             if isinstance(o, VRef) and st.obj(o.ref)["kind"] == "obj":
                 self.mark_escaped(v)
+                fty = o.ty.fields.get(target.attr) if isinstance(getattr(o, "ty", None), TObj) else None
+                if isinstance(fty, TOptional) and not isinstance(v, VOptional):
+                    v = self.coerce(v, fty, target.attr)  # a plain value / None stored in a field declared Optional
+                elif fty is not None and isinstance(v, (VEmptyList, VEmptySet, VEmptyDict)):
+                    v = self.coerce(v, fty, target.attr)  # an empty literal takes the declared type of the field
                 st.set_field(o.ref, target.attr, v)
             else:
                 raise Unsupported(f"attribute store on {o.ty}")
@@ -1206,7 +1212,7 @@ class Executor:
 
     # ---- expressions ---------------------------------------------------------------
     def eval(self, node) -> V:
-        if self.contract.abstractions and isinstance(node, (ast.ListComp, ast.Call, ast.GeneratorExp, ast.SetComp, ast.Subscript, ast.BoolOp)):
+        if self.contract.abstractions and isinstance(node, (ast.ListComp, ast.Call, ast.GeneratorExp, ast.SetComp, ast.DictComp, ast.Subscript, ast.BoolOp)):
             src = ast.unparse(node)
             if src in self.contract.abstractions:
                 fn, note = self.contract.abstractions[src]
@@ -1239,7 +1245,7 @@ class Executor:
             if q in self.lib.constants:
                 return self.lib.constants[q]
             return VCallable(q)
-        if node.id in ("len", "max", "min", "sorted", "str", "int", "bool", "float", "list", "dict", "set", "frozenset", "type", "isinstance", "enumerate", "range", "any", "all", "sum", "cast", "round", "tuple", "hasattr", "getattr", "setattr", "zip", "abs"):
+        if node.id in ("len", "max", "min", "sorted", "str", "int", "bool", "float", "list", "dict", "set", "frozenset", "type", "isinstance", "enumerate", "range", "any", "all", "sum", "cast", "round", "tuple", "hasattr", "getattr", "setattr", "zip", "abs", "super"):
             return VCallable("builtins." + node.id)
         if node.id in EXC_PARENTS:
             return VCallable("builtins." + node.id)
@@ -1327,6 +1333,8 @@ class Executor:
 
     def getattr(self, o, attr, node):
         st = self.st
+        if isinstance(o, VCallable) and o.qual == "super:":
+            return VCallable("super:" + attr, bound=o.bound)
         if isinstance(o, VCallable):
             return VCallable(o.qual + "." + attr, bound=o.bound)
         if isinstance(o, VCnd):
@@ -1390,6 +1398,8 @@ class Executor:
             # attribute access on Optional: must not be None
             self.oblige("noraise.attr_on_none", node, z3.Not(o.isnone))
             return self.getattr(o.val, attr, node)
+        if isinstance(o, VForm):
+            return VCallable(f"method:Form.{attr}", bound=o)
         raise Unsupported(f"attribute .{attr} on {o.ty}")
 
     def expr_Subscript(self, node):
@@ -1637,6 +1647,8 @@ class Executor:
                 return z3.BoolVal(True)
             if isinstance(a, (VList, VRef, VInt, VBool, VCnd, VForm, VStr, VDict, VFloat)):
                 return z3.BoolVal(False)
+            if isinstance(a, VOpaque) and getattr(a, "kind", None) is None:
+                return a.t == OPQ_NONE  # an untyped value: None is one of the values it may be
         if isinstance(a, (VList, VDict, VSet)) and isinstance(b, (VList, VDict, VSet)):
             # the engine binds one value object per container object it creates or reads from a
             # field; containers created by one builder carry distinct object ids
@@ -1846,6 +1858,11 @@ class Executor:
             if not all(isinstance(a, VInt) for a in av) or len(av) != f.fn.arity():
                 raise Unsupported("call of a function parameter with these arguments")
             return VInt(f.fn(*[a.t for a in av]))
+        if isinstance(f, VCallable) and f.qual == "builtins.super" and not node.args and not node.keywords:
+            me = self.st.env.get("self")
+            if not isinstance(me, VRef):
+                raise Unsupported("super() outside a method with an object `self`")
+            return VCallable("super:", bound=me)
         if not isinstance(f, VCallable):
             raise Unsupported(f"call of {f.ty}")
         if any(isinstance(a, ast.Starred) for a in node.args) or any(k.arg is None for k in node.keywords):
@@ -1874,6 +1891,27 @@ class Executor:
         h = self.lib.functions.get(q)
         if h:
             return h(self, args, kwargs, node)
+        # 2b. super().method(...): the parent class's contract, on the same object
+        if q.startswith("super:"):
+            name = q[len("super:"):]
+            own = self.contract.qual.split(":")[1].rsplit(".", 1)[0]
+            parent = CLASS_PARENTS.get(own)
+            pct = resolve_method(parent, name) if parent else None
+            if pct is None:
+                raise Unsupported(f"super().{name}: no contract in the parents of {own}")
+            return self.call_contract(pct, [f.bound] + args, kwargs, node)
+        # 2c. Cls(...): a new object of that class, initialised by the contract of its (possibly inherited) __init__
+        cname = q.split(":")[1] if ":" in q else None
+        if cname and "." not in cname and cname in CLASS_MODULE and f"{CLASS_MODULE[cname]}:{cname}" == q and C.get(q) is None:
+            ict = resolve_method(cname, "__init__")
+            if ict is not None:
+                selfT = list(ict.params.values())[0]
+                if not isinstance(selfT, TObj):
+                    raise Unsupported(f"constructor of {cname}: __init__ contract without an object type")
+                obj = selfT.fresh(f"new_{cname}", self.st)
+                self.st.obj(obj.ref)["cls"] = cname
+                self.call_contract(ict, [obj] + args, kwargs, node)
+                return obj
         # 3. repository functions through their contract
         ct = C.get(q)
         if ct and getattr(ct, "inline", False):
